@@ -9,7 +9,10 @@ from . import schema, libs
 ED = "onnx_ir.external_data"
 LEVEL = "proof"
 TRUSTED = ["tensor.nbytes/name/dtype/shape are stable attributes with nbytes >= 0 (TensorProtocol contract, assumed)",
-           "os.path.join/normpath: deterministic string functions (trusted library contract)"]
+           "os.path.join/normpath: deterministic string functions (trusted library contract)",
+           "save[restore]: unload_from_model may assign any tensor to any value's const_value and may raise (weakest contract, assumed as "
+           "its only effect on const_value slots); serde.serialize_model and onnx.save assign no const_value (assumed frame); "
+           "Model.graphs() / GraphInitializers.values() are abstracted as the sequences g_graphs / g_vals (abstract view of the containers)"]
 NOT_DECIDED = ["save->load byte round trip (I/O) is only covered by the bounded stand-in",
                "safetensors backend writer (third-party safetensors library)"]
 BOUNDED = [{"name": 'C07 save/load round trip grid, layout of recorded ranges, in-place re-save, tensor objects restored (bounded, not a proof)', "script": "bounded_extdata.py", "args": ["--prop", 'C07']}]
@@ -181,3 +184,105 @@ def shard_end(tensors, shards, starts, off, i):
             "bounded_t(tensors, g_off, g_first, k, max_shard_size_bytes)",
             "shard_size == ite(k == 0, 0, g_off[k - 1] + tensors[k - 1].nbytes)",
         ], modifies=["%s.$v" % LT.cls, "%s.$v" % LLT.cls, "$alloc"])}))
+
+
+# ------------------------------------------------------------------------------------------------------------------
+# `The model object passed to save holds the same tensor objects afterwards, whether save returned or raised`
+IO = "onnx_ir._io"
+CORE = "onnx_ir._core"
+
+
+def add_save_restore_target(eng):
+    """onnx_ir._io.save, external_data given: whatever unload_from_model / serialize_model / onnx.save do to the tensors of the
+    initializers (they are replaced by ExternalTensor objects, on a failure possibly only some of them), every exit of
+    save - normal or exceptional, from any of those calls - leaves every initializer of every graph of the model holding
+    the tensor object it held at entry.  The collection loop and the restoring loop are cut with invariants; the callees
+    are abstracted by the weakest contract (`may assign any tensor to any value's const_value, may raise`)."""
+    from pyvc.core import ClassDecl
+    V = TRef("Value")
+    G = TRef("Graph")
+    if "Value" not in eng.classes:
+        eng.declare_class_from_source(CORE, "Value", fields={"_const_value": TRef("TensorLike")}, bases=[])
+    eng.add_class(ClassDecl("GraphInitializers7", fields={"g_vals": TSeq(V)}))
+    eng.add_class(ClassDecl("Graph7", fields={"initializers": TRef("GraphInitializers7")}))
+    eng.add_class(ClassDecl("Model7", fields={"g_graphs": TSeq(TRef("Graph7"))}))
+    LV = eng.LIST(V)
+    LTn = eng.LIST(TRef("TensorLike"))
+    def m_graphs(e, p, args, kwargs, node):
+        return [(p, e.read_field(p, args[0], "g_graphs"))]
+
+    def m_values(e, p, args, kwargs, node):
+        return [(p, e.read_field(p, args[0], "g_vals"))]
+    eng.method_models = dict(getattr(eng, "method_models", {}) or {})
+    eng.method_models[("Model7", "graphs")] = FnDecl("onnx_ir._core.Model.graphs", "builtin", impl=m_graphs)
+    eng.method_models[("GraphInitializers7", "values")] = FnDecl("GraphInitializers.values", "builtin", impl=m_values)
+    # the callees between the snapshot and the restore: weakest contract over the state the property talks about
+    eng.functions[f"{ED}.unload_from_model"] = FnDecl(f"{ED}.unload_from_model", "contract", ED, "unload_from_model",
+        requires=[], ensures=["result is model"], ret=TRef("Model7"), raises={"AnyException": []}, modifies=["Value._const_value"])
+
+    # serialization reads the model (assumed frame: it assigns no const_value); it may raise
+    eng.functions["onnx_ir.serde.serialize_model"] = FnDecl("onnx_ir.serde.serialize_model", "contract", "onnx_ir.serde", "serialize_model",
+        requires=[], ensures=[], raises={"AnyException": []}, modifies=[])
+
+    def lib_isabs(e, p, args, kwargs, node):
+        import z3
+        from pyvc.types import VBool, fresh_name
+        return [(p, VBool(z3.Bool(fresh_name("isabs"))))]
+
+    def lib_onnx_save(e, p, args, kwargs, node):
+        from pyvc.core import Exc
+        from pyvc.types import VNone
+        return [(p, VNone()), (p.copy(), Exc("AnyException", f"L{node.lineno}:onnx.save"))]
+
+    def setup(e, p, env):
+        e.lenient = False
+        e.lib_models["os.path.isabs"] = lib_isabs
+        e.lib_models["onnx.save"] = lib_onnx_save
+
+    wf = ("forall(lambda i=int: implies(0 <= i and i < len(model.g_graphs), nonnull(model.g_graphs[i]) and nonnull(model.g_graphs[i].initializers))) and "
+          "forall(lambda i=int, j=int: implies(0 <= i and i < len(model.g_graphs) and 0 <= j and j < len(model.g_graphs[i].initializers.g_vals), "
+          "nonnull(model.g_graphs[i].initializers.g_vals[j])))")
+    restored = ("forall(lambda i=int, j=int: implies(0 <= i and i < len(model.g_graphs) and 0 <= j and j < len(model.g_graphs[i].initializers.g_vals), "
+                "model.g_graphs[i].initializers.g_vals[j]._const_value is old(model.g_graphs[i].initializers.g_vals[j]._const_value)))")
+    HINTS = ["forall(lambda i=int, j=int: implies(0 <= i and i < len(g_start) and i < len(model.g_graphs) and 0 <= j and j < len(model.g_graphs[i].initializers.g_vals), "
+             "0 <= g_start[i] + j and g_start[i] + j < len(g_iv) and g_iv[g_start[i] + j] is model.g_graphs[i].initializers.g_vals[j]))",
+             "forall(lambda m=int: implies(0 <= m and m < len(g_iv), g_iv[m]._const_value is old(g_iv[m]._const_value)))"]
+    eng.add_target(Target("save[restore]", mod=IO, qual="save", setup=setup,
+        params=dict(model=TRef("Model7"), path=STR, format=TOpt(STR), external_data=TOpt(STR), size_threshold_bytes=INT,
+                    max_shard_size_bytes=TOpt(INT), callback=TRef(None), max_workers=TOpt(INT), max_in_flight_bytes=TOpt(INT),
+                    alignment=TOpt(INT), align_threshold=INT),
+        requires=["nonnull(model)", wf],
+        local_types={"initialized_values": LV, "tensors": LTn},
+        # ghost: where each graph's registered values start in the collected list (a witness instead of an existential)
+        ghost_init="g_start = IntSeq()\ng_iv = EmptySeq(Value)",
+        ghost=[("initialized_values.extend(graph.initializers.values())", "before", "g_start = g_start + IntSeq(len(initialized_values))"),
+               ("initialized_values.extend(graph.initializers.values())", "after", "g_iv = Seq(initialized_values)")],
+        loops={
+            # collection: everything registered in the graphs visited so far is in the list, in order
+            0: LoopSpec(invariant=[
+                "len(g_start) == k", "seq_eq(g_iv, Seq(initialized_values))",
+                "forall(lambda i=int: implies(0 <= i and i < k, 0 <= g_start[i] and g_start[i] + len(model.g_graphs[i].initializers.g_vals) <= len(initialized_values)))",
+                "forall(lambda i=int, j=int: implies(0 <= i and i < k and 0 <= j and j < len(model.g_graphs[i].initializers.g_vals), "
+                "initialized_values[g_start[i] + j] is model.g_graphs[i].initializers.g_vals[j]))",
+                "forall(lambda m=int: implies(0 <= m and m < len(initialized_values), nonnull(initialized_values[m])))"],
+                modifies=[f"{LV.cls}.$v"]),
+            # restore: the first k collected values hold their entry tensors again (a value collected twice is written twice
+            # with the same object)
+            # snapshot (a comprehension): the m-th snapshot is the entry tensor of the m-th collected value
+            1: LoopSpec(invariant=[
+                "len(acc) == k",
+                "forall(lambda m=int: implies(0 <= m and m < k, acc[m] is old(g_iv[m]._const_value)))"],
+                modifies=["$alloc", f"{LTn.cls}.$v"], elem=TRef("TensorLike")),
+            2: LoopSpec(invariant=[
+                "forall(lambda m=int: implies(0 <= m and m < k, g_iv[m]._const_value is old(g_iv[m]._const_value)))"],
+                modifies=["Value._const_value"]),
+        },
+        ensures=HINTS + [restored], raises_default=HINTS + [restored], modifies=None, assert_mode="raise"))
+
+
+_build0 = build
+
+
+def build(eng, tier):
+    _build0(eng, tier)
+    add_save_restore_target(eng)
